@@ -816,11 +816,16 @@ impl Run {
         }
         let pool: Vec<String> = std::iter::once(Self::zero()).chain(self.ctxs.iter().cloned()).collect();
         let ctx = pool[self.rng.gen_range(0..pool.len())].clone();
-        let head = self.rng.gen_bool(0.6);
+        let kind = self.rng.gen_range(0..10);
+        let head = kind < 5;
+        let lim: u64 = if kind >= 8 { self.rng.gen_range(1..5) } else { 0 };
         let topic = ["tA", "tAB", "tB"][self.rng.gen_range(0..3)];
         let topic_s = self.fam.topics.get(topic).cloned().unwrap();
         let target = if head {
             format!("/head/{topic_s}?follow=true&context={ctx}")
+        } else if lim > 0 {
+            // history + live with a heartbeat and a limit: pulses are not counted, the stream ends after `lim`
+            format!("/?follow=3&limit={lim}&context-id={ctx}")
         } else {
             format!("/?follow=true&tail=true&context-id={ctx}")
         };
@@ -835,7 +840,7 @@ impl Run {
         let eph = json!({"k": "eph", "n": 0});
         for c in pool.iter().take(3) {
             let t = if self.rng.gen_bool(0.7) { topic } else { "tABC" };
-            let ttl = if self.rng.gen_bool(0.3) { &eph } else { &forever };
+            let ttl = if lim == 0 && self.rng.gen_bool(0.3) { &eph } else { &forever };
             self.op_append(c, t, ttl, "none", "none");
         }
         self.op_append(&ctx, topic, &forever, "m1", "b1");
@@ -854,7 +859,8 @@ impl Run {
             .filter(|f| f["topic"] != "xs.threshold" && f["topic"] != "xs.pulse")
             .map(|f| self.abs_frame(f))
             .collect();
-        self.events.push(json!({"e": "followprobe", "route": if head { "head" } else { "cat" }, "topic": topic,
+        let route = if head { "head" } else if lim > 0 { "catlim" } else { "cat" };
+        self.events.push(json!({"e": "followprobe", "route": route, "topic": topic, "lim": lim,
             "ctx": idref(&ctx), "res": res, "appended": appended, "status": r["status"]}));
     }
 
@@ -1014,6 +1020,15 @@ impl Run {
                 let ctx = self.resolve(op["ctx"].as_i64().unwrap()).unwrap();
                 let meta = ["none", "m1", "m2"][self.rng.gen_range(0..3)];
                 self.op_import(&id, &ctx, op["topic"].as_str().unwrap(), &op["ttl"], meta);
+            }
+            "reimport" => {
+                // the identical frame again (as the store returns it now): must change nothing
+                let id = self.resolve(op["id"].as_i64().unwrap()).unwrap();
+                let r = self.call(json!({"op": "get", "id": id}));
+                if !Self::failed(&r) && !r["frame"].is_null() {
+                    let f = r["frame"].clone();
+                    self.op_import_concrete(&f, None);
+                }
             }
             "xfer" => self.op_xfer(),
             other => {
